@@ -482,6 +482,30 @@ def quoted_bool_probe(loop):
     return None, n
 
 
+def global_scope_probe(loop):
+    """scoped: a statement that addresses the GLOBAL scope never changes what the SESSION reads - whether it is refused (as every
+    GLOBAL assignment is here) or not; SET GLOBAL TRANSACTION is one of the spellings"""
+    n = 0
+    for sql, names in (("SET GLOBAL TRANSACTION READ ONLY, ISOLATION LEVEL SERIALIZABLE", ["transaction_read_only", "transaction_isolation"]),
+                       ("SET GLOBAL TRANSACTION ISOLATION LEVEL READ COMMITTED", ["transaction_isolation"]),
+                       ("SET GLOBAL transaction_isolation = 'SERIALIZABLE'", ["transaction_isolation"]),
+                       ("SET @@global.autocommit = 0", ["autocommit"])):
+        sess = VSession(); sess._connection = FakeConn()
+        loop.run_until_complete(sess.handle_query("SET SESSION TRANSACTION ISOLATION LEVEL REPEATABLE READ, READ WRITE", {}))
+        before = [sess.variables.get(x) for x in names]
+        try:
+            loop.run_until_complete(sess.handle_query(sql, {}))
+            outcome = "accepted"
+        except Exception:  # noqa
+            outcome = "refused"
+        n += 1
+        after = [sess.variables.get(x) for x in names]
+        if after != before:
+            return dict(problem=f"a statement addressing the GLOBAL scope ({outcome}) changed what the session reads", sql=sql,
+                        session_before=repr(dict(zip(names, before))), session_after=repr(dict(zip(names, after)))), n
+    return None, n
+
+
 def custom_schema_defaults(loop):
     from mysql_mimic.variables import GlobalVariables, SessionVariables
     custom = dict(SYSTEM_VARIABLES)
@@ -641,6 +665,10 @@ def run(ctx: core.Ctx):
         # ---- an application that brings its own variable schema (other defaults): DEFAULT is THIS session's default, in every
         #      spelling - SET x = DEFAULT, SET NAMES DEFAULT, SET CHARACTER SET DEFAULT, SET_VAR(x = DEFAULT) - and SHOW VARIABLES
         #      / @@x read it back
+        gs, ngs = global_scope_probe(loop)
+        ctx.evals += ngs
+        if gs and witness is None:
+            witness = dict(kind="global-scope", **gs)
         qb, nqb = quoted_bool_probe(loop)
         ctx.evals += nqb
         if qb and witness is None:
